@@ -73,7 +73,7 @@ CLAIMED = {
   technique="Lean 4 proof (induction over files and over an interleaving relation of signals) + generated handler semantics + forked-child signal injection",
   ref="DESIGN.md §5 C20"),
  "C01": dict(
-  text="Lean 4 theorems (Props/C01.lean, Props/C01b.lean) about the tag codecs, each a round trip encode -> strict spec decoder = identity for "
+  text="File-level compositions (DESIGN.md 9.15): id3_file_roundtrip / id3_tag_roundtrip_safe / id3_file_roundtrip_any_order, id3_file_read_v22 / _v23 / _v24_frame_unsynch, ape_file_roundtrip, ogg_saved_comment_reads_back and ogg_saved_comment_decodes_strictly (five codecs), asf_saved_tags_read_back with an explicit canonical form, mp4_saved_tags_read_back, flac_saved_comment_reads_back, FLAC block codecs picture_/seektable_/cuesheet_/padding_roundtrip with strict readers (Props/C01_*.lean). Lean 4 theorems (Props/C01.lean, Props/C01b.lean) about the tag codecs, each a round trip encode -> strict spec decoder = identity for "
        "ALL contents (any number of keys/values, any Unicode scalars incl. astral planes, lengths up to the formats' 32-bit fields): "
        "utf8_roundtrip, utf16_roundtrip; vorbis_roundtrip (vendor + ordered (key, value) list, framing bit, any trailing bytes); ape_roundtrip "
        "(header + items + footer, key/kind/value); mp4_item/freeform/text/integer/pair_roundtrip (ilst data atoms); asf_ecd/metadata/uint/bool/"
@@ -112,7 +112,7 @@ CLAIMED = {
  "C05": dict(
   text="Stream-info parsers modelled in Lean with specification-side builders (Model/Info, Spec/Info, Props/C05_<Fmt>.lean): for ALL values of the header fields the "
        "specification allows, parsing the built header yields exactly the encoded values - wavpack_info_decodes_partial, ape_info_decodes_partial, "
-       "apeold_info_decodes_partial, ofr_info_decodes (+ ofr_encoder_string for all 65536 ids), tta_info_decodes, tak_bitreader_fields, tak_info_decodes, mpc_sv7_info_decodes_partial, mpc_sv8_info_decodes, aac_adts_info_decodes_partial, ac3_values_decode, eac3_values_decode, wave_info_reports, wave_info_decodes_partial, aiff_info_decodes_partial (80-bit extended rate modelled exactly), dsf_info_decodes_partial, dsdiff_info_decodes, oggvorbis_/oggopus_/oggspeex_/oggflac_info_decodes, oggtheora_info_decodes_partial, asf_info_decodes, mp4_info_decodes (atom walk, stsd, esds, alac, dac3); every format with <fmt>_info_total (all byte strings end in ok or MutagenError); the "
+       "apeold_info_decodes_partial, ofr_info_decodes (+ ofr_encoder_string for all 65536 ids), tta_info_decodes, tak_bitreader_fields, tak_info_decodes, mpc_sv7_info_decodes_partial, mpc_sv8_info_decodes, aac_adts_info_decodes_partial, ac3_values_decode, eac3_values_decode, wave_info_reports, wave_info_decodes_partial, aiff_info_decodes_partial (80-bit extended rate modelled exactly), dsf_info_decodes_partial, dsdiff_info_decodes, oggvorbis_/oggopus_/oggspeex_/oggflac_info_decodes, oggtheora_info_decodes_partial, asf_info_decodes, mp4_info_decodes (atom walk, stsd, esds, alac, dac3), mpeg_info_decodes_cbr / _xing / _vbri / _lame (MP3 incl. the sync search, mpeg_iter_sync_chunks), ac3_info_decodes_partial, eac3_fields_decode; every format with <fmt>_info_total (all byte strings end in ok or MutagenError); the "
        "hypotheses of the _partial ones exclude exactly the open findings, which are decide-witnesses in the same files; tied by harness/info_tie_a.py and info_tie_b.py (about 50 k traces per quick run). "
        "Lean 4 theorems (Props/C05.lean): mutagen's MPEG bitrate/sample-rate tables and the WavPack/Musepack/AAC/AC-3 rate tables (regenerated from "
        "source) equal the published tables; mpeg_header_decodes - for EVERY 32-bit MPEG audio header (all field combinations incl. reserved bits) "
@@ -135,7 +135,7 @@ CLAIMED = {
   technique='Lean 4 proof (induction over edit histories of a layout-level model, parse/render round trip) + independent walkers',
   ref='DESIGN.md §5 C03'),
  "C07": dict(
-  text="Order independence and re-save theorems: ape_order_independent, id3_order_independent, id3_resave_idempotent, ape_resave_idempotent, dsf_resave_idempotent, asf_save_twice_same_object, asf_save_reload_idempotent, asf_resave_keep_identical, ogg_save_same_packet_unchanged, ogg_second_save_identical_partial (the full Ogg two-save statement is kept unproved as ogg_save_twice_statement, see DESIGN.md §9.10). Lean 4 theorems (Props/C07.lean) for FLAC: saving the layout just saved with the default padding policy is the identity (uses the regenerated policy's idempotence), and an unchanged save keeps every non-padding block in order and byte-identical. Partial: for the other formats load-save-reload-save byte identity and tag equality are checked on the real code over random histories; the ID3/APEv2 insertion-order theorems are not yet built.",
+  text="Order independence and re-save theorems: ape_order_independent, id3_order_independent, id3_resave_idempotent, ape_resave_idempotent, dsf_resave_idempotent, asf_save_twice_same_object, asf_save_reload_idempotent, asf_resave_keep_identical, ogg_save_same_packet_unchanged, ogg_second_save_identical (with the explicit bound: padding within the policy's upper bound), mp4_save_twice_identical, asf_load_save_roundtrip_identical. Lean 4 theorems (Props/C07.lean) for FLAC: saving the layout just saved with the default padding policy is the identity (uses the regenerated policy's idempotence), and an unchanged save keeps every non-padding block in order and byte-identical. Partial: for the other formats load-save-reload-save byte identity and tag equality are checked on the real code over random histories; the ID3/APEv2 insertion-order theorems are not yet built.",
   note='Trusted: Lean kernel; standard axioms; for FLAC the block-level model (a block is (code, payload as written by its write())) tied to the code by the walker oracle on real output; for the other formats the independent Python walkers in harness/walkers.py (written from the format specifications) are the oracle and nothing is proved yet.',
   technique='Lean 4 proof (idempotence of the layout-level save with the generated padding policy) + resave differential on real files',
   ref='DESIGN.md §5 C07'),
@@ -235,7 +235,7 @@ CLAIMED = {
   technique="Lean 4 proof (digit-level date conversion, kernel-decided formatting tables) + independent ID3v2.3/ID3v1 decoder on the real output",
   ref="DESIGN.md §5 C13"),
  "C16": dict(
-  text="Lean 4 theorems (Props/C16.lean): dictmixin_refines - proved ONCE and generically: if a store's four primitives (keys/getitem/setitem/"
+  text="Keyed policy layer kdictmixin_refines with instances mp4_refines, asf_refines, easymp4_refines (+ easymp4_set_native, easymp4_foreign_atoms_untouched: the Easy view and the native tags stay consistent), deviations as witnesses (asf_unhashable_key_witness, mp4_set_struct_error_witness, easymp4_attribute_error_witness); tie dict_tie_x (Props/C16_*.lean). Lean 4 theorems (Props/C16.lean): dictmixin_refines - proved ONCE and generically: if a store's four primitives (keys/getitem/setitem/"
        "delitem) refine a reference dictionary under an abstraction function, every DictMixin-derived operation (contains, values, items, clear, "
        "pop, popitem, update, setdefault, get, len) returns what the reference returns and commutes with the abstraction; proxy_refines, "
        "ape_refines (case-insensitive store with the APEv2 key rule, invalid key -> KeyError, spelling kept), vc_refines (VCommentDict: list of "
